@@ -6,7 +6,14 @@
 #ifndef QMAX
 #define QMAX 64
 #endif
+#include <string.h>
+/* the steal cache copies up to 2048 hint bytes with memcpy (symbolic length: out of memory in CBMC).  The hint BYTES
+   are outside the property (which thread is shown / taken is not): stub that records the call and copies nothing. */
+int g_mc_calls; size_t g_mc_n_max;
+static void * verif_memcpy(void * d, const void * s, size_t n) { if (g_mc_calls < 4) g_mc_calls++; if (n > g_mc_n_max) g_mc_n_max = n; return d; }
+#define memcpy verif_memcpy
 #include "myth_if_native.c"
+#undef memcpy
 
 struct myth_running_env ENVS[2];
 myth_thread_t BUF[QMAX];
@@ -54,6 +61,51 @@ void h_wsapi_take(void) {
     __CPROVER_assert(r == cand && Q.base == base0 + 1 && Q.top == top0, "wsapi take: an accepted (or undecided) candidate is taken from the base, exactly once");
     __CPROVER_assert(g_decide_calls == (with_fn ? 1 : 0), "wsapi take: callback asked once when given");
     __CPROVER_assert(Q.wc.seq == seq0 + 2 && Q.wc.ptr == 0 && Q.wc.size == 0, "wsapi take: peek cache invalidated (sequence even again, +2)");
+  }
+  VERIF_CANARY();
+}
+
+/* ------------------------------------------------------------------ peek (look at the oldest thread of a victim)
+ * "peek changes nothing": whatever it finds when it obtains the queue lock, it leaves base and top where they were,
+ * every element in place, and the lock released.  Obtaining the lock is the interference point (stub with a body):
+ * between the unlocked emptiness test and the lock the owner and other thieves may have moved base and top. */
+struct myth_thread PTH;                 /* the thread at the base when the lock is obtained */
+char HINT[8];
+int g_pk_trylocks, g_pk_base, g_pk_top, g_pk_locked_once;
+int verif_pk_trylock(myth_spinlock_t * l) {
+  __CPROVER_assert(l == &Q.lock && g_lock_held == 0, "wsapi peek: takes the victim's queue lock, not recursively");
+  if (g_pk_trylocks < 2) g_pk_trylocks++;
+  if (g_pk_trylocks == 1 && nondet_bool()) return 0;            /* busy once: peek starts over */
+  int b = nondet_int(), t = nondet_int();                       /* what the others left behind */
+  __CPROVER_assume(0 <= b && b <= t && t <= Q.size);
+  Q.base = b; Q.top = t; g_pk_base = b; g_pk_top = t; g_pk_locked_once = 1;
+  if (b < t) BUF[b] = &PTH;
+  g_lock_held = 1;
+  return 1;
+}
+void h_wsapi_peek(void) {
+  g_envs = ENVS; g_envs_sz = 2;
+  Q.size = nondet_int(); Q.base = nondet_int(); Q.top = nondet_int();
+  __CPROVER_assume(2 <= Q.size && Q.size <= QMAX && 0 <= Q.base && Q.base <= Q.top && Q.top <= Q.size);
+  Q.ptr = BUF;
+  Q.wc.seq = nondet_int(); __CPROVER_assume(0 <= Q.wc.seq && Q.wc.seq < 1000000 && (Q.wc.seq & 1) == 0);
+  _Bool cached = nondet_bool();
+  Q.wc.ptr = cached ? (void *)&PTH : (void *)0; Q.wc.size = 0;
+  PTH.custom_data_ptr = HINT; PTH.custom_data_size = nondet_bool() ? 0 : 8;
+  int base0 = Q.base, top0 = Q.top, seq0 = Q.wc.seq;
+  g_lock_held = 0; g_unlocks = 0; g_pk_trylocks = 0; g_pk_locked_once = 0; g_mc_calls = 0; g_mc_n_max = 0;
+  char out[8]; size_t sz = 8;
+  myth_thread_t r = myth_wsapi_runqueue_peek(VICTIM, out, &sz);
+  __CPROVER_assert(g_lock_held == 0 && g_unlocks == g_pk_locked_once, "wsapi peek: queue lock released on every return path");
+  if (!g_pk_locked_once) {
+    __CPROVER_assert(Q.base == base0 && Q.top == top0, "wsapi peek: without the lock nothing is touched");
+    __CPROVER_assert(top0 > base0 || r == 0, "wsapi peek: NULL on an empty queue");
+  } else {
+    __CPROVER_assert(Q.base == g_pk_base && Q.top == g_pk_top, "wsapi peek: base and top are left exactly as found when the lock was obtained (peek takes nothing)");
+    __CPROVER_assert(g_pk_base == g_pk_top || BUF[g_pk_base] == &PTH, "wsapi peek: the oldest thread stays in its slot");
+    __CPROVER_assert(g_pk_base == g_pk_top || (r == &PTH && Q.wc.seq == seq0 + 2 && Q.wc.ptr == &PTH), "wsapi peek: shows the oldest thread and caches it (sequence even again, +2)");
+    __CPROVER_assert(g_pk_base < g_pk_top || (r == 0 && Q.wc.seq == seq0), "wsapi peek: a queue drained meanwhile: NULL, cache untouched");
+    __CPROVER_assert(g_mc_n_max <= WS_CACHE_SIZE && g_mc_n_max <= 8, "wsapi peek: never copies more than the cache holds nor more than the caller's buffer / the hint");
   }
   VERIF_CANARY();
 }
